@@ -352,6 +352,8 @@ def to_iter(it, v, st):
         v = t
     if is_iter(v):
         return v
+    if type(v).__name__ == "VecV":
+        return it_list(v.items)
     if isinstance(v, Seq):
         return it_list(v.items)
     if isinstance(v, Agg) and v.kind in ("array", "tuple") and v.path is None:
@@ -398,6 +400,8 @@ def call(it, name, args, st):
 def _call(it, name, args, st):
     m = _method(name)
     vals = [it.read_ref(st, a) for a in args]
+    # the term domain's older vector value is the same thing as a sequence
+    vals = [Seq(v.items) if type(v).__name__ == "VecV" else v for v in vals]
     a0 = vals[0] if vals else None
     if name == "std::iter::successors" and len(vals) == 2 and is_opt(vals[0]):
         return [("ret", it_adapt("successors", vals[0], vals[1]), st)]
